@@ -83,3 +83,49 @@ func VpC11Prefilter() {
 	}
 	vp.Reached("end")
 }
+
+// VpC11Generated: patterns enumerated from a small grammar instead of a hand-written list:
+//   [flags] [^] atom atom[quant] atom [| alt] [$]
+// with atoms from {a, B, (?i:b), [ab], ., \d, b}, quantifiers {none, ?, *, +}, alternatives
+// {none, "|ab", "|Ab", "|"}, flags {none, (?i), (?s), (?m)}; symbolic ASCII input.  The match
+// result with the prefilter on must equal the one with it off.
+func VpC11Generated() {
+	atoms := []string{"a", "B", "(?i:b)", "[ab]", ".", `\d`, "b"}
+	na := vp.Param("ATOMS", len(atoms))
+	a1 := atoms[vp.Choice("atom1", na)]
+	a2 := atoms[vp.Choice("atom2", na)]
+	a3 := atoms[vp.Choice("atom3", na)]
+	q := []string{"", "?", "*", "+"}[vp.Choice("quant", 4)]
+	alt := []string{"", "|ab", "|Ab", "|"}[vp.Choice("alt", vp.Param("ALTS", 4))]
+	fl := []string{"", "(?i)", "(?s)", "(?m)"}[vp.Choice("flags", vp.Param("FLAGS", 4))]
+	anchor := vp.Choice("anchors", 4)
+	pat := a1 + a2 + q + a3
+	if anchor&1 != 0 {
+		pat = "^" + pat
+	}
+	pat += alt
+	if anchor&2 != 0 {
+		pat += "$"
+	}
+	pat = fl + pat
+	pair := vp.Setup("c11g:"+pat, func() any {
+		on, err1 := newRX(plugintypes.OperatorOptions{Arguments: pat, RxPreFilterEnabled: true})
+		off, err2 := newRX(plugintypes.OperatorOptions{Arguments: pat, RxPreFilterEnabled: false})
+		if err1 != nil || err2 != nil {
+			panic("pattern rejected: " + pat)
+		}
+		return &vpRxPair{on, off}
+	}).(*vpRxPair)
+	n := vp.Choice("len", vp.Param("N", 3)+1)
+	s := vp.String("s", n)
+	for i := 0; i < len(s); i++ {
+		vp.Assume(s[i] < 0x80)
+	}
+	txOn := &vpRxTx{}
+	txOff := &vpRxTx{}
+	gotOn := pair.on.Evaluate(txOn, s)
+	gotOff := pair.off.Evaluate(txOff, s)
+	vp.Assert(gotOn == gotOff, "@rx "+pat+": match result differs with the prefilter on")
+	vp.Observe("match", gotOff)
+	vp.Reached("end")
+}
